@@ -23,38 +23,40 @@ EXPLANATION = (
 )
 ASSUMPTIONS = list(C04.ASSUMPTIONS)
 TRUSTED = C04.TRUSTED
-REQUIRED_COVERS = ["limit_reached", "sequential_A1", "hook_raise", "backend_fail", "skipped_message", "raise", "timeout"]
+REQUIRED_COVERS = ["limit_reached", "sequential_A1", "hook_raise", "backend_fail", "skipped_message", "raise", "timeout", "timeout_cleanup"]
 budget = C04.budget
 coverage_extra = C04.coverage_extra
 
-PER_MSG = ("return", "raise", "backend_fail", "hook_raise", "malformed", "unknown", "timeout")
+PER_MSG = ("return", "raise", "backend_fail", "hook_raise", "malformed", "unknown", "timeout", "timeout_cleanup", "empty", "empty_raw")
 
 
 def bounds(tier: str) -> Dict[str, Any]:
-    return {"messages": "M = 3 quick / 4 thorough", "A": "unbounded Int >= 1", "P": "0 and 1",
-            "environment choices": "K = 6 quick / 8 thorough, then deterministic drain", "outcome kinds per message": len(PER_MSG)}
+    return {"messages": "M = 3 quick / 4 thorough", "A": "unbounded Int >= 1", "P": "0 and 1 (quick), 0 (thorough)",
+            "environment choices": "K = 6 quick / 7 thorough, then deterministic drain", "outcome kinds per message": len(PER_MSG)}
 
 
 def cases(tier: str) -> List[Any]:
     out = []
     M = 3 if tier == "quick" else 4
-    K = 6 if tier == "quick" else 8
+    K = 6 if tier == "quick" else 7
+    depth = 2 if tier == "quick" else 3
     for first in PER_MSG:
-        for prefix in itertools.product(range(3), repeat=2):
-            for P in (0, 1):
+        for prefix in itertools.product(range(3), repeat=depth):
+            for P in (0, 1) if tier == "quick" else (0,):
                 out.append({"M": M, "K": K, "first": first, "prefix": list(prefix), "P": P})
     return out
 
 
 def harness(c: sym.Ctx, case: Dict[str, Any]) -> None:
     M = case["M"]
-    per = [case["first"]] + [c.choose(PER_MSG if k == 1 else ("return", "hook_raise"), f"outcome{k}") for k in range(1, M)]
-    kinds = [p if p in ("malformed", "unknown") else "valid" for p in per]
-    outcomes = [p if p not in ("malformed", "unknown") else "return" for p in per]
+    per = [case["first"]] + [c.choose(("return", "raise", "backend_fail", "hook_raise", "unknown", "timeout", "empty_raw") if k == 1 else ("return", "hook_raise"), f"outcome{k}") for k in range(1, M)]
+    skip = ("malformed", "unknown", "empty", "empty_raw")
+    kinds = [p if p in skip else "valid" for p in per]
+    outcomes = [p if p not in skip else "return" for p in per]
     for p in per:
-        if p in ("hook_raise", "backend_fail", "raise", "timeout"):
+        if p in ("hook_raise", "backend_fail", "raise", "timeout", "timeout_cleanup"):
             c.cover(p)
-        if p in ("malformed", "unknown"):
+        if p in ("malformed", "unknown", "empty", "empty_raw"):
             c.cover("skipped_message")
     spec = {"M": M, "kinds": kinds, "outcomes": outcomes, "A": "sym", "P": case["P"], "N": "none", "wtt": None, "K": case["K"], "prefix": case["prefix"]}
     state: Dict[str, Any] = {"samples": [], "seen": set()}
